@@ -53,7 +53,7 @@ var (
 	SigmaStr = syms("'", "\"", "`", "\\", "n", "x", "u", "U", "0", "3", "7", "8", "a", "r", "b", "\n")
 	SigmaCmt = syms("#", "-", "/", "*", "\n", "a", "'", ";", " ", "\"")
 	SigmaOp  = syms("<", ">", "=", "!", "|", "-", "+", "@", ".", "a", "1", "(", "&", "^")
-	SigmaUni = syms("\u00a0", "\u3000", "\u0085", "a", " ", "\xff", "\xc2", "\n", "\f", "\v", "\xa0", "\x85")
+	SigmaUni = syms("\u00a0", "\u3000", "\u0085", "a", " ", "\xff", "\xc2", "\n", "\f", "\v", "\xa0", "\x85", "\ufeff")
 	// SigmaSplit for C12
 	SigmaSplit = syms(";", "'", "\"", "`", "-", "/", "*", "#", "\n", " ", "a", "\\")
 )
@@ -103,3 +103,12 @@ var Lexemes = syms(
 
 // Glue for S2.
 var Glue = syms("", " ", "\n")
+
+// LiteralMatrix is the product prefix x quote form x body of string/bytes literals (S2b).
+var (
+	LitPrefixes = syms("", "r", "b", "rb", "R", "B", "bR", "Rb", "BR", "br")
+	LitQuotes   = syms("'", "\"", "'''", "\"\"\"")
+	LitBodies   = syms("", "a", "\\n", "\\a\\b\\f\\r\\t\\v", "\\\\", "\\?", "\\\"", "\\'", "\\`", "\\101", "\\400", "\\18", "\\x41", "\\X4a", "\\x4", "\\xg1",
+		"\\u0041", "\\u00e9", "\\ud800", "\\udfff", "\\ue000", "\\u004", "\\U00000041", "\\U0010FFFF", "\\U00110000", "\\U0001F600", "\\c", "\\", "\n", "a\nb", "'", "\"", "''", "\"\"", "\\\n", "\xff", "\u00e9")
+	LitSuffixes = syms("", " a", "a", ";")
+)
